@@ -1,5 +1,6 @@
 import Driver.Common
 import Logrange.Model.Registry
+import Logrange.Model.RegistryJson
 import Logrange.Generated.C19
 /-! Model driver for C19 (pipe registry). Requests:
 
@@ -14,6 +15,11 @@ import Logrange.Generated.C19
                                   of critical sections (GetPipe, CreatePipe's two sections) → per caller `ok:<tags>` | `conflict` | `failed` | `pending`
 * `restart` / `crash`           — clean stop + start / start on what `savePipes` left on disk → `ok <n> <sorted names>` or `refused`
 * `spec.sorted <name>*`         — SPEC: the names sorted in Go string order, duplicates kept
+* `jstr <s>`                    — `json.Marshal(string)` → hex of the quoted text
+* `junq <text>`                 — one JSON string literal at the head of the text → `ok <decoded> <rest>` | `err`
+* `jenc (<name> <tags> <flt>)*` — `json.Marshal([]Pipe)` = the content of pipes.dat → hex
+* `jdec <text>`                 — `json.Unmarshal` on the fragment the encoder emits + `Init`'s loop into the map →
+                                  `ok <n> (<name> <tags> <flt>)* | map <n> (<name> <tags> <flt>)*` or `outside`
 -/
 open Go Logrange.Registry Driver
 
@@ -49,12 +55,29 @@ def startOp (s : PState) (o : POp) : PState × String :=
             (s', if ns.isEmpty then "ok 0" else s!"ok {ns.length} {hexList ns}")
   | some _ => (s', "refused")
 
+def pipesOfToks : List String → List Pipe
+  | n :: t :: f :: rest => ⟨unhex n, unhex t, unhex f⟩ :: pipesOfToks rest
+  | _ => []
+
+def showPipes3 (l : List Pipe) : String :=
+  " ".intercalate (toString l.length :: l.flatMap (fun p => [hex p.name, hex p.tagsCond, hex p.fltCond]))
+
 def step (s : PState) (toks : List String) : PState × String :=
   match toks with
   | "getpipes" :: names =>
     let order := names.map (fun n => (⟨unhex n, [], []⟩ : Pipe))
     (s, hexList (listingOf order))
   | "spec.sorted" :: names => (s, hexList (sortBytes (names.map unhex)))
+  | ["jstr", x] => (s, hex (jsonString (unhex x)))
+  | ["junq", x] =>
+    (match junquote (unhex x) with
+     | some (d, rest) => (s, s!"ok {hex d} {hex rest}")
+     | none => (s, "err"))
+  | "jenc" :: toks => (s, hex (encPipes (pipesOfToks toks)))
+  | ["jdec", x] =>
+    (match decPipes (unhex x) with
+     | none => (s, "outside")
+     | some l => (s, s!"ok {showPipes3 l} | map {showPipes3 (loadMap l)}"))
   | ["reset"] => (⟨[], none⟩, "ok")
   | ["create", n, t, f, ok] => regOp s (.create ⟨unhex n, unhex t, unhex f⟩ (ok == "1"))
   | ["ensure", n, t, f, ok] => regOp s (.ensure ⟨unhex n, unhex t, unhex f⟩ (ok == "1"))
